@@ -76,6 +76,14 @@ def catalogue():
     c["dict-secure"] = ({"k": "Dict", "key": {"k": "Str"}, "val": {"k": "Secure", "o": {"method": "aes"}}}, [D(("k", "sec-d"))], [])
     c["dict-challenge"] = ({"k": "Dict", "key": {"k": "Str"}, "val": {"k": "Challenge"}}, [D(("k", "pw-d"))], [D(("k", 5))])
     c["list-list"] = ({"k": "List", "o": {"default": [[1], []]}}, [[[1, [2]], D(("a", [None]))], [[1.5, "s"]]], ["x"])
+    c["str-strip-case-min"] = ({"k": "Str", "o": {"transform_strip": "x", "transform_case": "lower", "min_len": 3, "max_len": 5}},
+                               ["abc", "xAbCdx"], ["XabX", "ab", "xXx", 5])
+    c["str-upper-max"] = ({"k": "Str", "o": {"transform_case": "upper", "max_len": 6}}, ["ABC", "def"], ["stra\u00dfe", "toolong"])
+    c["list-int-v"] = ({"k": "List", "item": {"k": "Int", "o": {"min": 0, "max": 9}}, "o": {"validator": "sum<10", "default": [1]}},
+                       [[2, 3], ["4"]], [[5, 6], [9, "1"], [10]])
+    c["int-even"] = ({"k": "Int", "o": {"validator": "even", "default": 2}}, [4, "6"], [3, "5", "x"])
+    c["dict-typed-v"] = ({"k": "Dict", "key": {"k": "Str"}, "val": {"k": "Int"}, "o": {"validator": "distinct-values"}},
+                         [D(("a", 1), ("b", 2)), D(("a", "3"))], [D(("a", 1), ("b", "1")), D(("a", "x"))])
     c["str-req-nodflt"] = ({"k": "Str", "o": {"required": True}}, ["v", "w"], [None, "", 5])
     c["dict-byteskey"] = ({"k": "Dict", "key": {"k": "Bytes", "o": {"encoding": "hex"}}, "val": {"k": "Int"}}, [D((Y(b"\xab\xcd"), 1)), D((Y(b"\xa0"), 2), ("k", 3))], [D((5, 1))])
     c["dict-any-dflt"] = ({"k": "Dict", "o": {"default": D(("d", 1))}}, [D(("k", 1))], ["x"])
@@ -85,7 +93,7 @@ def catalogue():
 
 def quick_leaves():
     return ["str-norm", "str-regex-req", "int09", "int-req", "bool", "net", "bytes", "challenge", "list-int", "list-str-req",
-            "dict-typed", "any", "float", "host", "str-req-nodflt"]
+            "dict-typed", "any", "float", "host", "str-req-nodflt", "str-strip-case-min", "str-upper-max", "list-int-v", "int-even", "dict-typed-v"]
 
 
 # ---------------------------------------------------------------------------------------------
@@ -373,6 +381,8 @@ def invalid_values(cfg, spec, pre=""):
             continue
         fs = dict(f)
         fs["o"] = {a: b for a, b in f.get("o", {}).items() if a not in ("default", "default_callable", "required")}
+        if k in ("List", "Dict"):
+            fs["o"].pop("validator", None)   # a whole-container validator is a set-time check; in-place mutation validates items only
         # "required" is judged when a load/validation returns (C11), not on every intermediate state
         r = R.ref_validate(fs, value)
         if r[0] == "rej":
@@ -668,6 +678,8 @@ def ops_for(spec, leafname, tier="quick"):
     if not spec.get("dynamic"):
         ops.append(["set", "nosuchfield", 1])
         ops.append(["load_tree", D(("nosuchfield", 1))])
+    ops.append(["loads", "json", D(("nosuchmap", D(("x", 1))))])
+    ops.append(["loads", "json", D(("nosuchmap", D(("x", D(("y", 1))))))])
     # de-duplicate, keep order
     seen, out = set(), []
     for op in ops:
@@ -705,6 +717,8 @@ def initial_states(spec, leafname):
         if f == spec_l:
             for v in valid[-1:] + invalid[:2]:
                 inits.append({key: v})
+            if not f.get("o", {}).get("required"):
+                inits.append({key: None})          # an explicit None keyword (unsets the field; it still counts as assigned)
         elif f["k"] in ("Schema", "CType"):
             inner = [(p, ff) for p, ff in leaf_paths(f) if ff == spec_l]
             if inner and _jsonlike(valid[-1]):
